@@ -112,6 +112,24 @@ func dirHash(dir string) string {
 	return hex.EncodeToString(h.Sum(nil)[:10])
 }
 
+// dirShape lists the files of a directory tree by rank and size.
+func dirShape(dir string) string {
+	var parts []string
+	filepath.Walk(dir, func(path string, info os.FileInfo, err error) error {
+		if err != nil || info.IsDir() {
+			return nil
+		}
+		rel, _ := filepath.Rel(dir, path)
+		name := filepath.Base(rel)
+		if name != "offset" {
+			name = "#"
+		}
+		parts = append(parts, fmt.Sprintf("%s/%s:%d", filepath.Dir(rel), name, info.Size()))
+		return nil
+	})
+	return strings.Join(parts, ";")
+}
+
 func copyTree(from, to string) error {
 	return filepath.Walk(from, func(path string, info os.FileInfo, err error) error {
 		if err != nil {
@@ -156,10 +174,10 @@ func c02RunHistory(c *fw.Ctx, dir string, events []int, startAcked int, imgBase 
 		}
 		mx.Lock()
 		defer mx.Unlock()
-		key := name
+		key := table + "|" + name
 		hits[key]++
 		if exitPoint != "" {
-			if name == exitPoint && hits[key] == exitHit {
+			if key == exitPoint && hits[key] == exitHit {
 				os.Exit(0) // SIGKILL stand-in: no deferred functions, no flushing
 			}
 			return
@@ -167,8 +185,8 @@ func c02RunHistory(c *fw.Ctx, dir string, events []int, startAcked int, imgBase 
 		if imgBase == "" {
 			return
 		}
-		img := &c02Image{Point: name, Hit: hits[key], Acked: int(atomic.LoadInt32(&acked)), InFlight: atomic.LoadInt32(&inFlight) == 1, EventIdx: int(atomic.LoadInt32(&curEvent))}
-		img.Dir = filepath.Join(imgBase, fmt.Sprintf("%s-%d", name, img.Hit))
+		img := &c02Image{Point: key, Hit: hits[key], Acked: int(atomic.LoadInt32(&acked)), InFlight: atomic.LoadInt32(&inFlight) == 1, EventIdx: int(atomic.LoadInt32(&curEvent))}
+		img.Dir = filepath.Join(imgBase, fmt.Sprintf("%s-%s-%d", table, name, img.Hit))
 		copyTree(dir, img.Dir)
 		img.Hash = fmt.Sprintf("%s|%d|%v", dirHash(img.Dir), img.Acked, img.InFlight)
 		if seen[img.Hash] {
@@ -295,7 +313,7 @@ func c02Recover(c *fw.Ctx, dir string, inserted []int, n int, maybeOneMore bool,
 	if torn {
 		// the reader may still be deciding what to do with a torn tail: the acknowledged
 		// entries before it are covered by exact quiescence; give the tail a moment
-		time.Sleep(120 * time.Millisecond)
+		time.Sleep(60 * time.Millisecond)
 		db.Quiesce()
 	}
 	candidates := []int{n}
@@ -364,7 +382,7 @@ func c02Run(c *fw.Ctx, cs c02Case, conformance bool) {
 			torn int
 		}
 		variants := []variant{{img.Dir, -1}}
-		if img.Point == "wal-write-after" {
+		if strings.HasSuffix(img.Point, "|wal-write-after") {
 			for _, tv := range c02TornVariants(img.Dir, img.Dir) {
 				variants = append(variants, variant{tv.Dir, tv.Keep})
 			}
@@ -381,7 +399,11 @@ func c02Run(c *fw.Ctx, cs c02Case, conformance bool) {
 				// the entry being written is not acknowledged in the torn variants
 				maybe = true
 			}
+			t0 := time.Now()
 			key, msg := c02Recover(c, rec, inserted, acked, maybe, v.torn > 0)
+			if os.Getenv("C02_DEBUG") != "" {
+				fmt.Fprintf(os.Stderr, "recover %s hit %d torn %d acked %d maybe %v: %v key=%q msg=%q\n", img.Point, img.Hit, v.torn, acked, maybe, time.Since(t0), key, msg)
+			}
 			if key == "" && msg != "" {
 				c.Incomplete(msg)
 				continue
@@ -413,9 +435,18 @@ func c02Run(c *fw.Ctx, cs c02Case, conformance bool) {
 			cmd := exec.Command(self, "c02child", string(b), img.Point, fmt.Sprint(img.Hit), childDir)
 			cmd.Env = os.Environ()
 			if err := cmd.Run(); err == nil {
-				if h := dirHash(childDir); !strings.HasPrefix(img.Hash, h+"|") {
+				// compare what the step's own table (and the WAL) look like: the other
+				// table's actor runs concurrently and FlushAll visits tables in map order
+				sub := strings.SplitN(img.Point, "|", 2)[0]
+				// (file contents embed wall-clock based WAL offsets, so two processes
+				// never produce identical bytes: compare names by rank and sizes)
+				same := dirShape(filepath.Join(childDir, "_wal")) == dirShape(filepath.Join(img.Dir, "_wal"))
+				if sub != "s" {
+					same = same && dirShape(filepath.Join(childDir, sub)) == dirShape(filepath.Join(img.Dir, sub))
+				}
+				if !same {
 					c.Count("conformance_images_differing", 1)
-					c.Note(fmt.Sprintf("conformance: child killed at %s hit %d left a different directory than the image (timing of the background file remover is not controlled)", img.Point, img.Hit))
+					c.Note(fmt.Sprintf("conformance: child killed at %s hit %d left a different directory than the image (table subtree and WAL compared by file rank and size)", img.Point, img.Hit))
 				} else {
 					c.Trace(1)
 				}
